@@ -194,6 +194,27 @@ def print_assumptions(props_v):
     return {'theorems': theorems, 'asked': asked, 'axioms': axioms, 'problems': problems}
 
 
+def coqchk(props_v, timeout=1500):
+    """thorough tier: re-check the compiled closure with the independent checker and read its context summary"""
+    mod = 'Props.' + os.path.basename(props_v)[:-2]
+    try:
+        p = subprocess.run(['coqchk', '-o', '-silent'] + qflags() + [mod], cwd=COQ, stdout=subprocess.PIPE,
+                           stderr=subprocess.STDOUT, text=True, timeout=timeout)
+    except subprocess.TimeoutExpired:
+        return {'ran': True, 'ok': None, 'note': 'coqchk timed out after %ss' % timeout}
+    out = p.stdout
+    res = {'ran': True, 'exit': p.returncode}
+    for key, label in (('axioms', 'Axioms'), ('type_in_type', 'Constants/Inductives relying on type-in-type'),
+                       ('unsafe_fix', 'Constants/Inductives relying on unsafe (co)fixpoints'),
+                       ('positivity', 'Inductives whose positivity is assumed')):
+        m = re.search(r'\* ' + re.escape(label) + r':\s*(.*?)(?=\n\s*\n\*|\Z)', out, re.S)
+        res[key] = ' '.join(m.group(1).split()) if m else 'not reported'
+    res['ok'] = p.returncode == 0 and all(res[k] == '<none>' for k in ('axioms', 'type_in_type', 'unsafe_fix', 'positivity'))
+    if not res['ok']:
+        res['tail'] = out[-600:]
+    return res
+
+
 def grep_gate(files):
     hits = []
     for f in files:
@@ -405,6 +426,12 @@ def run_check(plugin_mod, tier, replay=None):
             pa = print_assumptions(props_v)
             for pr in pa['problems']:
                 broken.append({'kind': 'assumptions', 'what': pr, 'detail': pr})
+        chk = {'ran': False}
+        if ok_props and tier == 'thorough' and not os.environ.get('VERIF_NO_COQCHK'):
+            chk = coqchk(props_v)
+            if chk.get('ok') is False:
+                broken.append({'kind': 'coqchk', 'what': 'coqchk does not accept the closure of %s or reports axioms' % props_v,
+                               'detail': chk})
         gate = grep_gate(closure + [P.CORR_VO[:-1]])
         for g in gate:
             broken.append({'kind': 'gate', 'what': 'forbidden construct ' + g, 'detail': g})
@@ -518,6 +545,7 @@ def run_check(plugin_mod, tier, replay=None):
         'known_finding_hits': {k: len(v) for k, v in known_hits.items()},
         'search_cases': searched,
         'explanation': P.EXPLANATION,
+        'coqchk': chk,
     }
     ev = {'property_id': prop, 'tier': tier, 'seed': seed, 'level': 'proof', 'coverage': coverage,
           'assumptions': trusted, 'wall_s': round(time.time() - t0, 2),
